@@ -450,7 +450,7 @@ void top_level_op(World& W, Choices& c)
     }
     return;
   }
-  switch (c.weighted({5, 8, 2, 2, 2, 3, 1, is_prop("C09") ? 2u : 0u, is_prop("C16") ? 3u : 0u, is_prop("C05") ? 2u : 0u, is_prop("C16") ? 2u : 0u,
+  switch (c.weighted({5, 8, 2, 2, 2, 3, 1, is_prop("C09") ? 2u : 0u, is_prop("C16") ? 3u : 0u, is_prop("C05") ? 2u : 0u, is_prop("C16") ? 2u : (is_prop("C03") ? 1u : 0u),
                       is_prop("C08") ? 2u : 0u, (is_prop("C05") && !kBounded) ? 2u : 0u,
                       ((is_prop("C03") || is_prop("C06") || is_prop("C09")) && !kBounded) ? 1u : 0u}))
   {
